@@ -520,6 +520,9 @@ func (o *oracles) afterRestart() {
 	if o.s.crash != nil {
 		o.s.crash.models = append(o.s.crash.models, o.crashModel())
 	}
+	if o.durabilityUnknown {
+		o.preRestart = nil
+	}
 	if o.on("C12") && o.preRestart != nil {
 		vr := o.s.probe(Op{K: "FreshView", On: true})
 		if vr.View != nil {
